@@ -373,7 +373,11 @@ def run_shard(desc, ctx):
                     # ('A','BC') vs ('AB','C') - a joined comparison key without separator confuses them
                     # ... or differ only by blanks or letter case: still different groups
                     fam = rng.choice([["1", "11", "111"], ["A", "AB", "B", "BC", "C"], ["x", "xx"],
-                                      ["ARM A", "ARM A ", " ARM A", "ARM  A"], ["a", "A", "a ", "b"]])
+                                      ["ARM A", "ARM A ", " ARM A", "ARM  A"], ["a", "A", "a ", "b"],
+                                      # long labels that agree in their first 40 / 64 / 100 characters
+                                      ["Population: All Participants as Treated; Treatment: Drug X " + t
+                                       for t in ("10 mg", "20 mg", "10 mg bid")],
+                                      ["L" * 64 + t for t in ("a", "b", "")]])
                     runs = G.split_runs(rng, n, 6)
                     keys, prev = [], None
                     for ln in runs:
@@ -383,12 +387,15 @@ def run_shard(desc, ctx):
                         prev = k2
                         keys += [k2] * ln
                     cols2 = [[k[0] for k in keys], [k[1] for k in keys]]
+                    long_labels = max(len(x) for x in fam) > 20
                     if rng.random() < 0.5:
                         g = {"page_by": [], "subline_by": cols2}
                     else:
                         g = {"page_by": cols2}
                         extra["new_page"] = True
-                        if rng.random() < 0.5:
+                        # (long labels only where the group columns are not table cells: they would wrap there
+                        # and the rows would no longer have the heights this check controls)
+                        if long_labels or rng.random() < 0.5:
                             extra["pageby_row"] = "first_row"
                     mode = "plain_done"
                 if mode not in ("plain", "plain_done"):
